@@ -564,7 +564,7 @@ class SxIO:
                     a = E.concretize(z3.simplify(lo - off), limit=len(p.t) + 2)
                     k = E.concretize(take, limit=len(p.t) + 2)
                     out.append(Lit(p.t[max(a, 0) : max(a, 0) + k]))
-            else:
+            elif E.possible(take > 0):  # pieces that are empty on this path are dropped
                 out.append(Opq(p.name, z3.simplify(p.start + (lo - off)), take, p.meta))
             off = z3.simplify(off + ln)
         return out
